@@ -28,7 +28,7 @@ func exec(op string) vlib.Res {
 	switch f[0] {
 	case "rw", "wg", "res", "burst", "eff", "proc":
 		return execLocal(op)
-	case "inl", "bw", "zl", "gl", "tcpclass":
+	case "inl", "bw", "zl", "gl", "tcpclass", "accept":
 		return execLocal(op)
 	case "dedup", "sys", "ing":
 		if os.Getenv("C11_NOCHILD") != "" {
@@ -59,6 +59,8 @@ func execLocal(op string) vlib.Res {
 		return execBurst(f)
 	case "tcpclass":
 		return execTCPClass(f)
+	case "accept":
+		return execAccept(f)
 	case "zl":
 		return execZL(f)
 	case "gl":
